@@ -239,6 +239,9 @@ func parseMultiarch(input *input, possi *Possibility) error {
 		peek := input.Peek()
 		switch peek {
 		case ',', '|', 0, ' ', '\t', '\r', '\n', '(', '[', '<':
+			if name == "" {
+				return errors.New("A ':' needs an architecture qualifier behind it")
+			}
 			arch, err := ParseArch(name)
 			if err != nil {
 				return err
@@ -381,11 +384,17 @@ func parsePossibilityNumber(input *input, version *VersionRelation) error {
 		case '(', '[', '<': /* another clause began, this one didn't end */
 			return errors.New("Oh no. Another clause opened before Number finished")
 		case ')':
+			if version.Number == "" {
+				return errors.New("A version relation needs a version Number")
+			}
 			return nil
 		case ' ', '\t', '\r', '\n':
 			eatWhitespace(input)
 			if input.Peek() != ')' {
 				return errors.New("Whitespace inside a version Number")
+			}
+			if version.Number == "" {
+				return errors.New("A version relation needs a version Number")
 			}
 			return nil
 		}
@@ -446,6 +455,9 @@ func parsePossibilityArch(input *input, possi *Possibility) error {
 		case '!':
 			return errors.New("You can only negate whole blocks :(")
 		case ']', ' ', '\t', '\r', '\n': /* Let our parent deal with these */
+			if arch == "" { /* [!] or [! amd64] */
+				return errors.New("A '!' needs an architecture behind it")
+			}
 			archObj, err := ParseArch(arch)
 			if err != nil {
 				return err
@@ -512,6 +524,9 @@ func parsePossibilityStage(input *input, stageSet *StageSet) error {
 			stage.Not = !stage.Not
 			continue
 		case '>', ' ', '\t', '\r', '\n': /* Let our parent deal with these */
+			if stage.Name == "" { /* <!> or <! nocheck> */
+				return errors.New("A '!' needs a Stage behind it")
+			}
 			stageSet.Stages = append(stageSet.Stages, stage)
 			return nil
 		}
